@@ -118,7 +118,7 @@ fn signal_actor(sig: &str) -> Vec<Step> {
         "TERM" => vec![at(T_SIG), Step::Signal("TERM"), end],
         "INT+INT" => vec![at(T_SIG), Step::Signal("INT"), at(T_SIG + 500), Step::Signal("INT"), end],
         "HUP+INT" => vec![at(40), Step::Signal("HUP"), at(T_SIG), Step::Signal("INT"), end],
-        "INT+TERM" => vec![at(T_SIG), Step::Signal("INT"), at(T_SIG + 200), Step::Signal("TERM"), end],
+        "INT+TERM" => vec![at(T_SIG), Step::Signal("INT"), at(T_SIG + 150), Step::Signal("TERM"), end],
         "HUP" => vec![at(T_SIG), Step::Signal("HUP"), end],
         "none" => vec![end],
         _ => panic!("signal"),
@@ -598,4 +598,122 @@ pub fn build(tier: &str) -> SimCheck {
             "a client that had not finished logging in when SIGINT arrived may be cut by the exit (not judged)".into(),
         ],
     }
+}
+
+// ---------------------------------------------------------------------------------------------
+// Trace conformance against the real binary (harness/src/binconf.rs, binconf/c17_replay.py)
+// ---------------------------------------------------------------------------------------------
+
+/// What the sim observed, in terms a black-box run of the real binary can observe too.
+pub fn abstract_obs(sc: &Scenario, out: &Outcome) -> serde_json::Value {
+    let log = &out.log;
+    let progs: Vec<String> = sc.meta["progs"].as_array().unwrap().iter().map(|x| x.as_str().unwrap().to_string()).collect();
+    let mut first_sig: Option<u64> = None;
+    let mut exit: Option<u64> = None;
+    for e in log {
+        match &e.rec {
+            Rec::Event { label, .. } if label == "signal(INT)" || label == "signal(TERM)" => {
+                first_sig.get_or_insert(e.t_ms);
+            }
+            Rec::Note { msg } if msg.starts_with("SIGNAL-RAISED SIGINT") => {
+                first_sig.get_or_insert(e.t_ms);
+            }
+            Rec::Note { msg } if msg == "MAIN-LOOP-EXIT" => {
+                exit.get_or_insert(e.t_ms);
+            }
+            _ => {}
+        }
+    }
+    let clients: Vec<serde_json::Value> = progs
+        .iter()
+        .enumerate()
+        .map(|(c, p)| {
+            // the replayer watches the binary for the same window
+            let horizon = T_SIG + 500 + TIMEOUT_MS + 400;
+            let msgs: Vec<(usize, &Msg)> = client_msgs(log, c).into_iter().filter(|(s, _)| log[*s].t_ms <= horizon).collect();
+            let nz = msgs.iter().filter(|(_, m)| m.code == b'Z').count();
+            serde_json::json!({
+                "name": format!("c{}", c),
+                "prog": p,
+                "login_ok": nz > 0,
+                "n_z": nz.saturating_sub(1),
+                "admin_err": msgs.iter().any(|(_, m)| is_admin_err(m)),
+                // a statement sent in the very instant of the signal may go either way in real time
+                "judge": p != "idle-then-q",
+            })
+        })
+        .collect();
+    serde_json::json!({
+        "exit": {"happened": exit.is_some(), "t_rel_ms": match (exit, first_sig) { (Some(x), Some(s)) => Some(x as i64 - s as i64), _ => None }},
+        "clients": clients,
+    })
+}
+
+/// The scripts of a scenario in a form the Python replayer executes over real sockets.
+pub fn export_scenario(sc: &Scenario) -> serde_json::Value {
+    let actors: Vec<serde_json::Value> = sc
+        .actors
+        .iter()
+        .map(|a| {
+            let steps: Vec<serde_json::Value> = a
+                .steps
+                .iter()
+                .map(|s| match s {
+                    Step::Connect { user, db, password, .. } => serde_json::json!({"k": "connect", "user": user, "db": db, "pw": password}),
+                    Step::Send { bytes, .. } => serde_json::json!({"k": "send", "hex": bytes.iter().map(|b| format!("{:02x}", b)).collect::<String>()}),
+                    Step::Wait(Cond::ZOrClosed(n)) | Step::Wait(Cond::Z(n)) => serde_json::json!({"k": "wait_z", "n": n}),
+                    Step::Wait(Cond::Closed) => serde_json::json!({"k": "wait_closed"}),
+                    Step::Wait(Cond::TimeMs(ms)) => serde_json::json!({"k": "wait_time", "ms": ms}),
+                    Step::Wait(Cond::CodeOrClosed(code, n)) => serde_json::json!({"k": "wait_code", "code": code, "n": n}),
+                    Step::Close(CloseKind::HardDrop) => serde_json::json!({"k": "close_hard"}),
+                    Step::Signal(sig) => serde_json::json!({"k": "signal", "sig": sig}),
+                    Step::Admin(cmd) => serde_json::json!({"k": "admin", "cmd": cmd}),
+                    other => panic!("step {} cannot be replayed on the binary", other.label()),
+                })
+                .collect();
+            serde_json::json!({"name": a.name, "steps": steps})
+        })
+        .collect();
+    serde_json::json!({
+        "name": sc.name,
+        "toml": sc.toml,
+        "servers": sc.servers.iter().map(|s| s.addr.clone()).collect::<Vec<_>>(),
+        "actors": actors,
+        "timeout_ms": TIMEOUT_MS,
+        "horizon_ms": T_SIG + 500 + TIMEOUT_MS + 400,
+    })
+}
+
+/// Scenarios whose default-schedule trace is replayed on the real binary: everything whose outcome
+/// does not hinge on the order of two events in the same instant.
+pub fn conformance_scenarios(tier: &str) -> Vec<Scenario> {
+    let mut v = Vec::new();
+    let sigs: Vec<&str> = SIGNALS.iter().copied().filter(|s| *s != "INT-at-0").collect();
+    for a in CLIENT_PROGS {
+        if *a == "idle-then-q" {
+            continue;
+        }
+        for sig in &sigs {
+            v.push(scenario(&[a, "admin-early"], sig));
+        }
+    }
+    for ad in ["admin-late", "admin-split"] {
+        for sig in ["INT", "SHUTDOWN", "INT+INT"] {
+            v.push(scenario(&["txn-slow", ad], sig));
+            v.push(scenario(&["txn-never", ad], sig));
+        }
+    }
+    if tier == "thorough" {
+        for (i, a) in CLIENT_PROGS.iter().enumerate() {
+            for b in CLIENT_PROGS.iter().skip(i) {
+                if *a == "idle-then-q" || *b == "idle-then-q" {
+                    continue;
+                }
+                for sig in ["INT", "SHUTDOWN"] {
+                    v.push(scenario(&[a, b, "admin-late"], sig));
+                }
+            }
+        }
+    }
+    v
 }
